@@ -619,7 +619,34 @@ def judge(case, x):
     return out, 'graph'
 
 
+def run_real_seed(case, R):
+    """One run under the REAL generator seeded as `--seed` does (a recorded
+    input of a defect that was repaired: it is reported again if it returns)."""
+    import random
+    body = make_body(case)
+    st = random.getstate()
+    random.seed(case['real_seed'])
+    x = {'choices': [], 'exception': None, 'result': None}
+    try:
+        try:
+            x['result'] = body()
+        except BaseException as e:          # judged below
+            x['exception'] = e
+    finally:
+        random.setstate(st)
+    vs, cls = judge(case, x)
+    R.outcomes['outcome:' + cls] += 1
+    R.stats['executions'] += 1
+    R.stats['cases'] += 1
+    R.stats['real_seed_runs'] += 1
+    R.extend(vs)
+    R.case(sample={'gt': case['gt'], 'spec': case['spec'], 'real_seed': case['real_seed']},
+           nontrivial=x['exception'] is None)
+
+
 def run_case(case, R):
+    if case.get('real_seed') is not None:
+        return run_real_seed(case, R)
     body = make_body(case)
     outcomes = set()
     nviol = [0]
@@ -678,6 +705,22 @@ def run_cases(chunk, R):
 
 
 def replay(case):
+    if case.get('real_seed') is not None:
+        class _R:
+            def __init__(self):
+                import collections
+                self.outcomes = collections.Counter()
+                self.stats = collections.Counter()
+                self.vs = []
+
+            def extend(self, v):
+                self.vs.extend(v)
+
+            def case(self, **kw):
+                pass
+        r = _R()
+        run_real_seed({k: v for k, v in case.items() if k != 'choices'}, r)
+        return r.vs
     body = make_body(case)
     x = xp.replay(body, case['choices'])
     vs, _ = judge(case, x)
@@ -848,6 +891,10 @@ def cases(tier, seed):
         for ds in (seed, seed + 1):
             add('bipartite', ['regular', L, Rr, d_], mode='plain', max_dev=0, default='mix', default_seed=ds,
                 horizon=5000000, max_execs=1)
+    # recorded inputs of a repaired defect (hundreds of restarts: RecursionError
+    # before the fix), under the real generator
+    for (L, Rr, d_, sd_) in ((20, 20, 19, 2), (22, 22, 21, 3)):
+        add('bipartite', ['regular', L, Rr, d_], real_seed=sd_)
     add('bipartite', ['glrm', 2, 2])
     add('bipartite', ['glrd', 2, 2, 1, 1])
     add('bipartite', ['regular', 2])
